@@ -310,7 +310,12 @@ func main() {
 	nh := run.Scale(250, 5000)
 	for i := 0; i < nh; i++ {
 		g := &appdrv.Gen{U: u, R: run.RNG.Fork(), NoJunk: i%2 == 0}
-		h, _, _ := g.RandomHistory(4+run.RNG.Intn(8), 8)
+		var h appdrv.History
+		if i%3 != 0 {
+			h, _, _ = g.TransitionHistory(4+run.RNG.Intn(8), 8)
+		} else {
+			h, _, _ = g.RandomHistory(4+run.RNG.Intn(8), 8)
+		}
 		runHist(run, h)
 	}
 }
